@@ -268,6 +268,9 @@ class Beh:
     def qbig(self, o, m, rel, form="rel"):
         self.add({"k": "qbig", "o": o, "m": m, "rel": list(rel), "form": form})
 
+    def ithbig(self, o, m, rel=0, cnt=4):
+        self.add({"k": "ithbig", "o": o, "m": m, "rel": rel, "cnt": cnt})
+
     def metabig(self, o):
         self.add({"k": "metabig", "o": o})
 
